@@ -64,11 +64,15 @@ def universe():
     g = E('g', 'E', 4, [(F(1, 3), 1), (e, 1)])
     # g and e are convertible (same group) with factor 1/3
     e.scale, g.scale = 1, F(1, 3)
-    return {x.name: x for x in (a, b, c, d, d2, e, f, g)}
+    # two base elements of ONE group that are not convertible (like the
+    # units of a quantity type without reference unit, e.g. K and degC)
+    n1 = E('n1', 'N', 6)
+    n2 = E('n2', 'N', 6)
+    return {x.name: x for x in (a, b, c, d, d2, e, f, g, n1, n2)}
 
 
 U = None
-UNITS = ['m', 'km', 's', 'h', 'N', 'kWh', 'J', 'kg', 'in']
+UNITS = ['m', 'km', 's', 'h', 'N', 'kWh', 'J', 'kg', 'in', 'K', '°C']
 BASE_OF = {'M': 'kg', 'L': 'm', 'T': 's', 'D': 'B'}
 
 
@@ -93,6 +97,8 @@ def den_elem(code):
         U = universe()
     if code.startswith('u:'):
         t, scale = O.UNIT_REF[code[2:]]
+        if scale is None:           # temperature scales: own base element
+            return F(1), {code[2:]: 1}
         dim = O.CATALOGUE[t][0]
         return F(scale), {BASE_OF[k]: v for k, v in dim}
     if len(code) > 1 and code[1] == ':':
@@ -391,7 +397,7 @@ def run_assoc(i1, i2, i3):
 
 # ---------------------------------------------------------------------------
 
-ELEMS = ['a', 'b', 'c', 'd', 'd2', 'e', 'f', 'g']
+ELEMS = ['a', 'b', 'c', 'd', 'd2', 'e', 'f', 'g', 'n1', 'n2']
 NUMS = ['i:2', 'i:-3', 'i:10', 'D:0.5', 'F:2/3']
 UEL = ['u:' + s for s in UNITS]
 
@@ -471,14 +477,22 @@ def run(tier, seed):
     import quantity.predefined  # noqa  (real units as elements)
     total = Stats()
     alphabet = item_alphabet(tier)
-    maxlen = 3
-    total.merge(pmap(part_terms, [[it] for it in alphabet],
-                     (alphabet, maxlen)))
+    red = [(e, x) for e in ['a', 'd', 'd2', 'e', 'f', 'g', 'n1', 'n2', 'i:2',
+                            'D:0.5', 'F:2/3'] for x in (-1, 1, 2)]
     if tier == 'thorough':
+        maxlen = 3
+        total.merge(pmap(part_terms, [[it] for it in alphabet],
+                         (alphabet, 3)))
         # length 4 over a reduced alphabet
-        red = [(e, x) for e in ['a', 'd', 'e', 'f', 'g', 'i:2', 'D:0.5',
-                                'F:2/3'] for x in (-1, 1, 2)]
-        total.merge(pmap(part_terms, [[it] for it in red], (red, 4)))
+        red4 = [it for it in red if it[0] not in ('d2', 'n2')]
+        total.merge(pmap(part_terms, [[it] for it in red4], (red4, 4)))
+    else:
+        # all sequences of length <= 2 over the full alphabet, length 3 over
+        # the reduced one
+        maxlen = 3
+        total.merge(pmap(part_terms, [[it] for it in alphabet],
+                         (alphabet, 2)))
+        total.merge(pmap(part_terms, [[it] for it in red], (red, 3)))
     # real units
     ualpha = [(u, x) for u in UEL for x in (-1, 1, 2)] + \
         [('i:10', 1), ('F:2/3', -1), ('D:0.5', 2)]
@@ -487,8 +501,13 @@ def run(tier, seed):
     k = seed % 3
     sub = [('a', 1), ('a', -1), ('b', 2), ('c', -2), ('d', 1), ('d', -1),
            ('d2', 1), ('e', 1), ('e', -2), ('f', 1), ('g', 1), ('g', -1),
+           ('n1', 1), ('n2', 1), ('n2', -1),
            ('i:2', 1), ('i:2', -1), ('i:2', 2), ('i:10', 1), ('D:0.5', 1),
            ('F:2/3', 1), ('F:2/3', -2), ('i:-3', [1, 2, 3][k])]
+    if tier == 'quick':
+        drop = {('c', -2), ('i:2', 2), ('F:2/3', -2), ('e', -2), ('d', -1),
+                ('a', -1), ('g', -1), ('i:10', 1)}
+        sub = [x for x in sub if x not in drop]
     shorts = [[list(x)] for x in sub] + \
         [[list(x), list(y)] for x in sub for y in sub]
     shorts.append([])
@@ -512,11 +531,13 @@ def run(tier, seed):
     total.extra['item_alphabet'] = len(alphabet)
     total.extra['short_terms'] = len(shorts)
     return total, dict(
-        rule=f"all item sequences of length <= {maxlen} over "
-             f"{len(alphabet)} items (8 elements: base a,b,c; d=10a, "
-             "d2=100a convertible; e=a/b; g=e/3 convertible with e; "
-             "f=2*e^2*c nested; numbers 2,-3,10,0.5,2/3; exponents "
-             "-2..2/3) and over real catalogue units; all ordered pairs of "
+        rule=f"all item sequences of length <= 2 (thorough 3) over "
+             f"{len(alphabet)} items and of length 3 (thorough 4) over a "
+             f"{len(red)}-item sub-alphabet (10 elements: base a,b,c; "
+             "d=10a, d2=100a convertible; e=a/b; g=e/3 convertible with e; "
+             "f=2*e^2*c nested; n1,n2 of one group but not convertible; "
+             "numbers 2,-3,10,0.5,2/3; exponents -2..2/3) and over real "
+             "catalogue units incl. K and degC; all ordered pairs of "
              f"{len(shorts)} short terms (==, hash, *, /, commutativity, "
              "normal form of results); **n, reciprocal, k/t, t*k, t/k for "
              "every numeric kind; associativity on all triples of single "
